@@ -4,6 +4,7 @@ import (
 	"fmt"
 	"go/token"
 	"go/types"
+	"math"
 	"sort"
 	"strings"
 
@@ -21,6 +22,7 @@ func propC19() *Property {
 			{ID: "C19.R1", Title: "strict decoding, defaults first, exit on every error", Floor: 8, Run: c19R1},
 			{ID: "C19.R2", Title: "every colour is converted by hexToAnsi with its error checked", Floor: 7, Run: c19R2},
 			{ID: "C19.R3", Title: "every consumer assumption about a config value is validated", Floor: 15, Run: c19R3},
+			{ID: "C19.R4", Title: "arithmetic on validated settings cannot overflow", Floor: 0, Run: c19R4},
 		},
 	}
 }
@@ -673,4 +675,103 @@ func reportsAndExits(fn *ssa.Function) bool {
 		return false
 	}
 	return dominatesAllReturns(exit)
+}
+
+// c19R4: a setting is validated in the unit the user writes (seconds) and
+// consumed in another (nanoseconds): between the two, package config scales
+// it. A validated positive value times a constant can wrap around to a
+// negative one, which the consumers were promised never to see. Every
+// multiplication (or left shift) of a value read from the configuration object
+// by a constant k inside package config must be dominated by an upper bound
+// v <= C (or v < C) on that very value with C·k inside the range of its type.
+func c19R4(c *Ctx) {
+	P := c.P
+	n := 0
+	for _, fn := range P.FuncsIn("servitor/config") {
+		fname := FuncName(fn)
+		eachInstr(fn, func(b *ssa.BasicBlock, _ int, in ssa.Instruction) {
+			bo, ok := in.(*ssa.BinOp)
+			if !ok || (bo.Op != token.MUL && bo.Op != token.SHL) || !isInteger(bo.Type()) {
+				return
+			}
+			var v ssa.Value
+			var k int64
+			if kk, isC := constInt(bo.Y); isC {
+				v, k = bo.X, kk
+			} else if kk, isC := constInt(bo.X); isC && bo.Op == token.MUL {
+				v, k = bo.Y, kk
+			} else {
+				return
+			}
+			if bo.Op == token.SHL {
+				if k < 0 || k > 62 {
+					return
+				}
+				k = int64(1) << uint(k)
+			}
+			// only values read from the configuration object
+			vp := path(v)
+			if !strings.Contains(vp, ".&") || k <= 1 {
+				return
+			}
+			bt, ok := bo.Type().Underlying().(*types.Basic)
+			if !ok {
+				return
+			}
+			var max int64 = math.MaxInt64
+			switch bt.Kind() {
+			case types.Int32:
+				max = math.MaxInt32
+			case types.Int16:
+				max = math.MaxInt16
+			case types.Int8:
+				max = math.MaxInt8
+			case types.Uint32:
+				max = math.MaxUint32
+			case types.Uint16:
+				max = math.MaxUint16
+			case types.Uint8:
+				max = math.MaxUint8
+			}
+			n++
+			bounded := false
+			for _, f := range factsOf(fn).At(b) {
+				cmp, ok := f.Cmp()
+				if !ok {
+					continue
+				}
+				x, y, op := cmp.X, cmp.Y, cmp.Op
+				if _, isC := constInt(x); isC {
+					x, y = y, x
+					switch op {
+					case token.LSS:
+						op = token.GTR
+					case token.LEQ:
+						op = token.GEQ
+					case token.GTR:
+						op = token.LSS
+					case token.GEQ:
+						op = token.LEQ
+					}
+				}
+				bound, isC := constInt(y)
+				if !isC || path(x) != vp {
+					continue
+				}
+				if op == token.LSS {
+					bound--
+				} else if op != token.LEQ {
+					continue
+				}
+				if bound >= 0 && bound <= max/k {
+					bounded = true
+				}
+			}
+			field := vp[strings.LastIndex(vp, ".&")+2:]
+			c.check(bounded, fname+"/scaled:"+strings.TrimSuffix(field, ".*"), P.InstrPos(in), fname,
+				fmt.Sprintf("an upper bound dominates the scaling by %d", k),
+				fmt.Sprintf("a setting is multiplied by %d without an upper bound having been checked: a large accepted value wraps around (e.g. timeout_seconds = 9999999999 becomes a negative duration, and every fetch fails at once)", k))
+		})
+	}
+	c.info("scalings", n)
 }
